@@ -62,6 +62,7 @@ BINDINGS = [
       ("length of the returned view decremented", lambda o: set_path(o, ["vout", "len"], lambda v: v - 1), "BAD")]),
     ("quant", {}, {}, "Trace_Quant", "Spec", {}, lambda o: o["ev"] == "quantile" and o["out"] == "ok" and o["strat"] in ("lower", "higher") and len(o["res"]) >= 1 and not o["wide"],
      [("first result element incremented", lambda o: set_path(o, ["res", 0], lambda v: v + 1), "BAD"),
+      ("result of the repeated call differs", lambda o: set_path(o, ["res2", 0], lambda v: v + 1), "BAD"),
       ("one parent cell outside the view changed", lambda o: set_path(o, ["mem1"], lambda v: v + [-3]), "BAD")]),
     ("minmax", {"kinds": "minmax"}, {}, "Trace_MinMax", "Spec", {}, lambda o: o["ev"] == "minmax" and o["ty"] == "f64" and o["min"]["out"] == "ok" and len(set(o["r"])) >= 2,
      [("rank of the returned minimum incremented", lambda o: set_path(o, ["min", "rank"], lambda v: v + 1), "BAD")]),
